@@ -1,0 +1,29 @@
+//! Footprint counters for the external verification harness (feature `verif_hooks`).
+
+use crate::arena::ArenaHeaderTag;
+use crate::machine::Machine;
+
+impl Machine {
+    /// Sizes of the machine's growing data areas, by name.
+    pub fn verif_footprint(&self) -> Vec<(&'static str, usize)> {
+        vec![
+            ("heap_cells", self.machine_st.heap.cell_len()),
+            ("stack_top", self.machine_st.stack.top()),
+            ("trail_entries", self.machine_st.trail.len()),
+            ("tr", self.machine_st.tr),
+            ("b", self.machine_st.b),
+            ("e", self.machine_st.e),
+            ("code_len", self.code.len()),
+            ("load_contexts", self.load_contexts.len()),
+            (
+                "inactive_load_states",
+                self.machine_st
+                    .arena
+                    .verif_slab_count_by_tag(ArenaHeaderTag::InactiveLoadState),
+            ),
+            ("f64_entries", self.machine_st.arena.f64_tbl.verif_entry_count()),
+            ("atoms", self.machine_st.atom_tbl.active_table().len()),
+            ("lifted_heap_cells", self.machine_st.lifted_heap.cell_len()),
+        ]
+    }
+}
